@@ -21,8 +21,10 @@
 (* Deviations (named switches, see CONVENTIONS):                           *)
 (*   "ProvisionalOnAmbiguousPt"  the provisional fallback is taken even    *)
 (*        when the payload type is claimed by two or more routes (C19).    *)
-(*   "ClearKeepsMid"  clear_listeners leaves the by-MID map populated      *)
-(*        (beyond the listed property: reported as EXT drift only).        *)
+(*   "ClearKeepsMid"  clear_listeners leaves the by-MID map populated, so a *)
+(*        receiver that is no longer registered still gets MID-carrying    *)
+(*        packets (C19: "at most one REGISTERED receiver").                *)
+(* Both were found on the pinned tree and are fixed in /repo (KF-C19-1/2). *)
 (***************************************************************************)
 EXTENDS Naturals, Sequences, FiniteSets, TLC
 
@@ -182,28 +184,35 @@ AllowedOutcomes(s, pt, rid, mid) ==
      ELSE IF v # 0 /\ PtHolders(pt) = {} THEN {{}, Out(v)}
      ELSE {{}}
 
-Packet(s, pt, rid, mid) ==
+\* The whole effect of one packet as a value (so that it can also be evaluated in the next state, for
+\* the probe edges of MC_Demux).
+PktEffect(s, pt, rid, mid) ==
   LET sel  == Select(s, pt, rid, mid)
       x    == sel.l
       bs1  == IF sel.bind THEN [DropClosed(bySsrc) EXCEPT ![s] = x] ELSE bySsrc
       fail == x # 0 /\ x \in closed
-  IN
-  /\ IF fail
-     THEN \* try_send -> Closed: by_ssrc.remove(ssrc); remove_sender(tx)
-          /\ bySsrc' = DropL([bs1 EXCEPT ![s] = 0], x)
-          /\ byRid'  = DropL(byRid, x)
-          /\ byMid'  = DropL(byMid, x)
-          /\ route'  = [route EXCEPT ![x] = NoRoute]
-          /\ reg'    = reg \ {x}
-     ELSE /\ bySsrc' = bs1
-          /\ UNCHANGED <<byRid, byMid, route, reg>>
-  /\ last' = [kind |-> "pkt", by |-> sel.by, sel |-> x, delivered |-> Out(x),
-              allowed |-> AllowedOutcomes(s, pt, rid, mid),
-              failed |-> IF fail THEN x ELSE 0,
-              ridmid |-> {RidSel(rid), MidSel(mid)} \ {0},
-              holders |-> PtHolders(pt), provs |-> Provs,
-              identified |-> ({RidSel(rid), MidSel(mid)} \ {0} # {} \/ bySsrc[s] # 0),
-              unreg |-> (Out(x) # {} /\ x \notin reg)]
+  IN [ \* try_send -> Closed: by_ssrc.remove(ssrc); remove_sender(tx)
+       bySsrc |-> IF fail THEN DropL([bs1 EXCEPT ![s] = 0], x) ELSE bs1,
+       byRid  |-> IF fail THEN DropL(byRid, x) ELSE byRid,
+       byMid  |-> IF fail THEN DropL(byMid, x) ELSE byMid,
+       route  |-> IF fail THEN [route EXCEPT ![x] = NoRoute] ELSE route,
+       reg    |-> IF fail THEN reg \ {x} ELSE reg,
+       last   |-> [kind |-> "pkt", by |-> sel.by, sel |-> x, delivered |-> Out(x),
+                   allowed |-> AllowedOutcomes(s, pt, rid, mid),
+                   failed |-> IF fail THEN x ELSE 0,
+                   ridmid |-> {RidSel(rid), MidSel(mid)} \ {0},
+                   holders |-> PtHolders(pt), provs |-> Provs,
+                   identified |-> ({RidSel(rid), MidSel(mid)} \ {0} # {} \/ bySsrc[s] # 0),
+                   unreg |-> (Out(x) # {} /\ x \notin reg)] ]
+
+Packet(s, pt, rid, mid) ==
+  LET e == PktEffect(s, pt, rid, mid) IN
+  /\ bySsrc' = e.bySsrc
+  /\ byRid'  = e.byRid
+  /\ byMid'  = e.byMid
+  /\ route'  = e.route
+  /\ reg'    = e.reg
+  /\ last'   = e.last
   /\ Log([op |-> "pkt", s |-> s, pt |-> pt, rid |-> rid, mid |-> mid])
   /\ UNCHANGED <<closed, cfg>>
 
@@ -264,8 +273,8 @@ BindingLearnt ==
   [][ (last'.kind = "pkt" /\ last'.by \in {"rid", "mid", "pt"} /\ last'.failed = 0)
         => bySsrc'[hist'[Len(hist')].s] = last'.sel ]_vars
 
-\* beyond the listed property (EXT): nothing is delivered to a receiver that has not been
-\* registered since the last clear_listeners
+\* "registered receiver": nothing is delivered to a receiver that has not been registered since the
+\* last clear_listeners (or since it was removed after a failed delivery)
 OnlyRegistered == [][ IsPkt => ~last'.unreg ]_vars
 
 TypeOK ==
